@@ -3,38 +3,50 @@ package main
 import (
 	"fmt"
 	"go/token"
+	"sort"
 	"strings"
 
 	"golang.org/x/tools/go/ssa"
 )
 
-// natural loop of a header: blocks that can reach the header without leaving
-// the set dominated by it.
-func loopBlocks(header *ssa.BasicBlock) map[int]bool {
-	body := map[int]bool{header.Index: true}
-	var stack []*ssa.BasicBlock
-	for _, p := range header.Preds {
-		if header.Dominates(p) {
+// natural loop of a header node: nodes that can reach the header without
+// leaving the set dominated by it (on the spliced CFG).
+func loopNodes(h *VNode) map[*VNode]bool {
+	body := map[*VNode]bool{h: true}
+	var stack []*VNode
+	for _, p := range h.Preds {
+		if h.Dominates(p) {
 			stack = append(stack, p)
 		}
 	}
 	for len(stack) > 0 {
 		b := stack[len(stack)-1]
 		stack = stack[:len(stack)-1]
-		if body[b.Index] {
+		if body[b] {
 			continue
 		}
-		body[b.Index] = true
+		body[b] = true
 		stack = append(stack, b.Preds...)
 	}
 	return body
 }
 
-// loopHeaderOf finds the innermost loop header whose loop contains b (nil if none).
-func loopHeaderOf(b *ssa.BasicBlock) *ssa.BasicBlock {
-	var best *ssa.BasicBlock
+func loopBlocks(header *ssa.BasicBlock) map[int]bool {
+	vf := vfuncOf(header.Parent())
+	out := map[int]bool{}
+	for n := range loopNodes(vf.first[header]) {
+		if n.Fn == header.Parent() {
+			out[n.Block.Index] = true
+		}
+	}
+	return out
+}
+
+// loopHeaderNode finds the innermost loop header whose loop contains n (nil if none).
+func loopHeaderNode(vf *VFunc, n *VNode) *VNode {
+	var best *VNode
 	bestSize := 1 << 30
-	for _, h := range b.Parent().Blocks {
+	for _, h := range vf.Nodes {
 		isHeader := false
 		for _, p := range h.Preds {
 			if h.Dominates(p) {
@@ -44,12 +56,25 @@ func loopHeaderOf(b *ssa.BasicBlock) *ssa.BasicBlock {
 		if !isHeader {
 			continue
 		}
-		lb := loopBlocks(h)
-		if lb[b.Index] && len(lb) < bestSize {
+		lb := loopNodes(h)
+		if lb[n] && len(lb) < bestSize {
 			best, bestSize = h, len(lb)
 		}
 	}
 	return best
+}
+
+// loopHeaderOf: header block of the innermost loop containing b.
+func loopHeaderOf(b *ssa.BasicBlock) *ssa.BasicBlock {
+	if b == nil {
+		return nil
+	}
+	vf := vfuncOf(b.Parent())
+	h := loopHeaderNode(vf, vf.first[b])
+	if h == nil {
+		return nil
+	}
+	return h.Block
 }
 
 // LoopExit describes one conditional edge leaving a loop.
@@ -63,26 +88,32 @@ type LoopExit struct {
 // is of kind "induction" when its condition compares an induction phi of the
 // header (or a range iterator's ok flag) with a loop-invariant value.
 func loopExits(h *ssa.BasicBlock) (exits []LoopExit, body map[int]bool) {
-	body = loopBlocks(h)
-	for idx := range body {
-		b := h.Parent().Blocks[idx]
-		if len(b.Instrs) == 0 {
+	vf := vfuncOf(h.Parent())
+	hn := vf.first[h]
+	nodes := loopNodes(hn)
+	body = map[int]bool{}
+	for n := range nodes {
+		body[n.Idx] = true
+	}
+	for n := range nodes {
+		if len(n.Instrs) == 0 || len(n.Succs) != 2 {
 			continue
 		}
-		iff, ok := b.Instrs[len(b.Instrs)-1].(*ssa.If)
+		iff, ok := n.Instrs[len(n.Instrs)-1].(*ssa.If)
 		if !ok {
 			continue
 		}
-		leaves := !body[b.Succs[0].Index] || !body[b.Succs[1].Index]
+		leaves := !nodes[n.Succs[0]] || !nodes[n.Succs[1]]
 		if !leaves {
 			continue
 		}
-		exits = append(exits, LoopExit{iff, canon(iff.Cond), classifyExit(iff.Cond, h, body)})
+		exits = append(exits, LoopExit{iff, canon(iff.Cond), classifyExit(iff.Cond, h, nodes)})
 	}
+	sort.Slice(exits, func(i, j int) bool { return exits[i].Cond < exits[j].Cond })
 	return
 }
 
-func classifyExit(cond ssa.Value, h *ssa.BasicBlock, body map[int]bool) string {
+func classifyExit(cond ssa.Value, h *ssa.BasicBlock, body map[*VNode]bool) string {
 	switch x := cond.(type) {
 	case *ssa.BinOp:
 		switch x.Op {
@@ -130,7 +161,7 @@ func isInductionPhi(v ssa.Value, h *ssa.BasicBlock) bool {
 	return true
 }
 
-func loopInvariant(v ssa.Value, body map[int]bool) bool {
+func loopInvariant(v ssa.Value, body map[*VNode]bool) bool {
 	in, ok := v.(ssa.Instruction)
 	if !ok {
 		return true // const, param, global
@@ -138,7 +169,8 @@ func loopInvariant(v ssa.Value, body map[int]bool) bool {
 	if in.Block() == nil {
 		return true
 	}
-	return !body[in.Block().Index]
+	_, n := nodeOfInstr(in)
+	return n == nil || !body[n]
 }
 
 // fullRangeLoop checks that the loop containing `at` visits every index: all
